@@ -191,6 +191,7 @@ def run(ctx) -> Result:
     # ------------------------------------------------------------------ I5
     _check_snapshots(res, proj, ctx.thorough)
     _check_sequences(res, proj, ctx.thorough)
+    _check_score_sequence(res, proj)
     res.assumptions.append("numba / numpy functions do not write their inputs except the in-place operations tabulated "
                            "in engines/effects.py")
     return res
@@ -268,7 +269,9 @@ def _snap_worker(job):
 # the first pairs keep one 5-element (resp. 4 + 1 + 1) strongly connected component under both schemes, with different optima
 SEQUENCE = [("five-cycle-ties", "unifying-p0.5"), ("five-cycle-ties", "generic"), ("six-mixed", "generic"),
             ("six-mixed", "unifying-p0.5"), ("cycle3", "unifying"), ("later-id-first", "unifying"),
-            ("five-cycle-ties", "pseudodistance"), ("five-cycle-ties", "unifying-p0.5")]
+            ("five-cycle-ties", "pseudodistance"), ("five-cycle-ties", "unifying-p0.5"),
+            # complete datasets sharing rankings, then the same dataset under another scheme (PickAPerm accepts these)
+            ("cycle3", "generic"), ("unanimous", "unifying"), ("cycle3", "unifying")]
 
 
 def _seq_worker(job):
@@ -310,7 +313,7 @@ def _seq_worker(job):
 def _check_sequences(res: Result, proj: Project, thorough: bool):
     w0 = E2EWorld(proj, "first")
     n = len(configurations(w0))
-    seq = SEQUENCE if thorough else SEQUENCE[:5]
+    seq = SEQUENCE if thorough else SEQUENCE[:3] + SEQUENCE[4:6] + SEQUENCE[8:]
     agg: Dict[str, List[str]] = {}
     with ProcessPoolExecutor(max_workers=min(n, os.cpu_count() or 1)) as ex:
         for out in ex.map(_seq_worker, [(proj.overlay, i, seq) for i in range(n)]):
@@ -322,6 +325,44 @@ def _check_sequences(res: Result, proj: Project, thorough: bool):
         res.check(not probs, "I6", f"{clabel}:shared-objects-sequence", "corankco/algorithms",
                   ok_detail=f"{len(seq)} consecutive runs on shared objects each equal the run on fresh objects",
                   bad_detail=probs[0] if probs else "")
+
+
+def _check_score_sequence(res: Result, proj: Project):
+    """Scores read through Consensus objects the caller builds (`Consensus([ranking], dataset, scheme).kemeny_score`, the
+    documented way to score a candidate), one after the other in one process: each equals the score a fresh process
+    gives; so do the descriptions."""
+    from . import oracle
+    CONS = proj.cls("corankco.consensus", "Consensus")
+    raws = oracle.DATASETS["cycle3"]
+    cands = [[{1}, {2}, {3}], [{3}, {2}, {1}], [{1, 2, 3}], [{2}, {1, 3}], [{1}, {2}, {3}]]
+    schemes = ["unifying", "generic", "unifying"]
+    ws = E2EWorld(proj, "first")
+    ds = ws.dataset(raws)
+    shared_sch = {nm: ws.scheme(oracle.SCHEMES[nm]) for nm in set(schemes)}
+    bad = None
+    n = 0
+    for k, cand in enumerate(cands):
+        sname = schemes[k % len(schemes)]
+        outs = []
+        for w, d_, sc_ in ((ws, ds, shared_sch[sname]), (None, None, None)):
+            if w is None:
+                w = E2EWorld(proj, "first")
+                d_, sc_ = w.dataset(raws), w.scheme(oracle.SCHEMES[sname])
+            try:
+                c = w.rt.new(CONS, [[w.ranking(cand)], d_, sc_], {})
+                outs.append((w.call(c, "kemeny_score"), w.call(c, "description").count("kemeny score")))
+            except AbsRaise as r:
+                outs.append(("raise", r.exc_name))
+            except Unsupported as exc:
+                raise AnalysisError(f"Consensus score sequence: unsupported construct line {getattr(exc.node, 'lineno', '?')}: {exc}")
+        n += 1
+        if outs[0] != outs[1] and bad is None:
+            bad = (k, cand, sname, outs[0], outs[1])
+    res.check(bad is None, "I6", "Consensus(...).kemeny_score:sequence-of-hand-built-consensus", "corankco/consensus.py",
+              ok_detail=f"{n} candidates scored one after the other on shared dataset / scheme objects: each score is the "
+                        f"fresh one",
+              bad_detail=(f"score call #{bad[0] + 1} (candidate {bad[1]}, scheme {bad[2]}, dataset {raws}) after the previous "
+                          f"ones gives {bad[3]!r}, a fresh process gives {bad[4]!r}") if bad else "")
 
 
 def _check_snapshots(res: Result, proj: Project, thorough: bool):
